@@ -1485,6 +1485,65 @@ def _pristine_eval(cid, ci, k, scale):
     return (out[0], freeze(out[1])) if out[0] == 'ok' else out
 
 
+def job_derived_selves(ctx, k):
+    """In-place methods called on an object DERIVED from the caller's array object (copy, deep copy, slice, view, arithmetic result): whether the
+    call works or refuses, the caller's ORIGINAL object keeps its elements (bytes of the buffer and of the .array / .A attribute)."""
+    import copy as _copy
+    from ahrs import QuaternionArray, Quaternion, DCM
+    V = Values(k)
+    q_, p_ = np.array(V.q, float), np.array(V.p, float)
+    Qj = np.array([q_, rq.qunit(q_ + 0.05 * p_), -rq.qunit(q_ + 0.1 * p_), -rq.qunit(q_ + 0.15 * p_), rq.qunit(q_ + 0.2 * p_), rq.qunit(q_ + 0.25 * p_)])
+    q_rot = p_.copy()
+    derive = [('Q.copy()', lambda Q: Q.copy()), ('copy.copy(Q)', lambda Q: _copy.copy(Q)), ('copy.deepcopy(Q)', lambda Q: _copy.deepcopy(Q)), ('Q[1:4]', lambda Q: Q[1:4]),
+              ('Q[:]', lambda Q: Q[:]), ('Q.view()', lambda Q: Q.view()), ('+Q', lambda Q: +Q), ('Q*1.0', lambda Q: Q * 1.0), ('np.array(Q, subok=True)', lambda Q: np.array(Q, subok=True))]
+    ops = [('remove_jumps()', lambda D: D.remove_jumps()), ('rotate_by(q, inplace=True)', lambda D: D.rotate_by(q_rot.copy(), inplace=True)), ('slerp_nan()', lambda D: D.slerp_nan()),
+           ('from_DCM(R, inplace=True)', lambda D: D.from_DCM(np.array([rq.R(rq.qunit(r_)) for r_ in Qj[:len(D)]]))), ("__setitem__ D[0] = q", lambda D: D.__setitem__(0, q_rot.copy())),
+           ('D *= -1', lambda D: D.__imul__(-1.0))]
+    for dn, mk in derive:
+        for on, op in ops:
+            Q = QuaternionArray(Qj.copy())
+            b0 = np.asarray(Q, float).tobytes(); a0 = np.asarray(Q.array, float).tobytes()
+            key = f'derived={dn} op={on} k{k}'
+            ctx.evals += 1
+            try:
+                D = mk(Q)
+            except Exception:
+                ctx.outcome(('derive-refused', dn)); continue
+            shares = isinstance(D, np.ndarray) and np.shares_memory(D, Q)
+            try:
+                op(D)
+                ctx.outcome(('derived-op-completed', dn, on))
+            except Exception:
+                ctx.outcome(('derived-op-refused', dn, on))
+            if shares and on.startswith(('__setitem__', 'D *=')):
+                continue            # writing through a VIEW of the caller's array reaches the caller by NumPy's own rules
+            same = np.asarray(Q, float).tobytes() == b0 and np.asarray(Q.array, float).tobytes() == a0
+            if shares:
+                continue            # views (slices, .view()) share the caller's memory by NumPy's rules: an in-place method on them may legitimately reach it
+            ctx.expect(same, "an in-place method on an independent copy of the caller's QuaternionArray leaves the caller's object as it was", key, np.asarray(Q.array, float)[:2], Qj[:2])
+            ctx.seen(('derived-self', dn, on))
+        ctx.cls('derived-selves')
+    # the scalar class and DCM: in-place edits of a copy never reach the original
+    for cname, mk0 in (('Quaternion', lambda: Quaternion(np.array(V.q, float).copy())), ('DCM', lambda: DCM(rq.R(rq.qunit(np.array(V.q, float)))))):
+        for dn, mk in (('copy()', lambda O_: O_.copy()), ('copy.deepcopy', lambda O_: _copy.deepcopy(O_)), ('+obj', lambda O_: +O_), ('np.array(obj, subok=True)', lambda O_: np.array(O_, subok=True))):
+            O0 = mk0(); b0 = np.asarray(O0, float).tobytes(); a0 = np.asarray(O0.A, float).tobytes()
+            ctx.evals += 1
+            try:
+                D = mk(O0)
+                D[...] = 0.25
+                if cname == 'Quaternion':
+                    try:
+                        D.normalize()
+                    except Exception:
+                        pass
+            except Exception:
+                ctx.outcome(('derived-op-refused', cname, dn))
+            same = np.asarray(O0, float).tobytes() == b0 and np.asarray(O0.A, float).tobytes() == a0
+            ctx.expect(same, f"in-place edits of an independent copy of the caller's {cname} leave the caller's object as it was", f'derived={dn} k{k}', np.asarray(O0.A, float), 'unchanged')
+        ctx.cls('derived-selves')
+    ctx.sample({'derived': [d[0] for d in derive], 'in_place_ops': [o[0] for o in ops]})
+
+
 def job_callables(ctx, ids, k, scale=1.0):
     # baselines first, while this process is still pristine: every case evaluated alone in its own forked child
     baseline = {}
@@ -1589,6 +1648,8 @@ def run(ctx):
         for scale in scales:
             for lo, hi in core.chunks(len(covered), nchunks):
                 jobs.append(('job_callables', (covered[lo:hi], k, scale)))
+    for k in ks:
+        jobs.append(('job_derived_selves', (k,)))
     core.run_jobs(ctx, __name__, jobs)
     hist, ref_all, ref_some = {}, {}, {}
     for key in [x for x in ctx.notes if x.startswith('_job:')]:
